@@ -192,7 +192,7 @@ _DKG_RULE = ("full protocol executions with a deterministic in-process scheduler
 
 CONFIG["C07"] = dict(
     lean_modules=["Props.C07"], generators=["C07"], level="proof", rule=_DKG_RULE, trusted_base=BLS_TB,
-    technique="Lean 4 proof (commutation of reorderable deliveries, invariants, congruence up to complaint-table order, schedule independence of End; agreement between different receivers by a shadow-observer simulation; share-consistency invariant over all behaviours; shape of End results) + differential run of every honest node + agreement predicates on real executions",
+    technique="Lean 4 proof (commutation of reorderable deliveries, invariants, congruence up to complaint-table order, schedule independence of End; agreement between different receivers by a shadow-observer simulation, composed over the n instances of Joint-Feldman API executions; share-consistency invariant over all behaviours; shape of End results) + differential run of every honest node + agreement predicates on real executions",
     level_text="Theorems for every state: Qual End returns keys only when not disqualified, no complaint unanswered, keys = those of the stored valid vector, share non-zero; the End verdict is a function of (disqualified, complaints, vector, share); Joint End fails beyond t disqualified dealers. "
                "Schedule quantifier (Feldman-VSS-Qual, participant other than the dealer, every crypto record): any two deliveries the network may reorder (different senders, or one sender's private and broadcast channel) commute "
                "(delivery_pair_commutes: both orders disqualified, or the same state up to the order of the complaint table); the invariants used are preserved by every delivery and timeout; the state after a round is independent of the delivery order "
@@ -209,7 +209,11 @@ CONFIG["C07"] = dict(
                "joint_instance_views_agree gives the same for what Joint End uses of an instance (settled verdict, vector of a qualified dealer), and joint_end_agrees_given_instances_partial assembles them: participants whose n instances have pairwise the same public view get from End the same public result (jpub; tie jres_jpub to the model of JointFeldman.End), each with its own combined share. "
                "For the two instances the participants deal themselves: honest_dealer_instance_views_agree - the dealer's own instance (invariant DS over every delivery and timeout: it keeps its vector, answers every complaint at once, stays qualified while at most t participants complain; dealer_instance_after_start) "
                "and an honest receiver's instance (hypotheses of honest_dealer_never_disqualified) end with the same public view. "
-               "Partial: the per-instance hypotheses (NetD for the other dealers, the honest-dealer hypotheses for the own dealings) are not yet composed into one closed statement about a Joint-Feldman execution; that composition is exercised by the runs and the agreement predicates.",
+               "Closed composition (joint_feldman_agreement, Proofs/DkgJointEnd): two participants A, B started with Joint.start (any seeds), driven through the model's API - three rounds of Joint.handleBroadcast / Joint.handlePrivate with Joint.nextTimeout in between (jfinal) - and ended with Joint.end_ "
+               "get the same public result (both fail, or the same group key and public key shares, each with its own combined private share), given reliable broadcast with synchronous rounds for every third-party dealer's instance (NetD; these dealers and all other participants arbitrary) "
+               "and honest-dealer delivery for the two instances A and B deal themselves (OwnNet, for the vector the dealer really holds after Start). It rests on joint_execution_is_instancewise (the API run is exactly the n per-instance runs: JI invariant over every call) and joint_instances_after_start "
+               "(fresh receiver instances, and the own dealer instance satisfying DS); a non-vacuity example runs the API with both Start calls succeeding and End returning keys at both. "
+               "What remains an assumption rather than a consequence: OwnNet is stated as a delivery hypothesis (the receiver gets the dealer's vector and a valid share in round one, answers are valid, at most t complainers); that the dealer's own Start outputs satisfy it when delivered is exercised by the runs, not proved.",
     level_note="Lean kernel + correspondence; reliable broadcast and round synchrony are assumptions of the property, implemented by the scheduler",
     assumptions=["reliable broadcast, round-synchronous delivery, at most t Byzantine participants"],
 )
